@@ -815,9 +815,9 @@ func writeEvidence(prop string, ld *loaded, ws []*Worker, results []*HarnessResu
 		decisions += w.decisions
 	}
 	cov := map[string]interface{}{
-		"evaluations":                          queries + domDec,
+		"evaluations":                          queries + domDec + sumPaths(paths),
 		"distinct_nontrivial":                  nontrivial,
-		"rule":                                 "evaluations = decisions discharged about symbolic conditions (branch feasibility, run-time panic obligations, assertions): by the SMT solver (decided_by_smt_solver) or, for conditions over a single byte-sized input, by exhaustive evaluation over its 256-value domain (decided_by_byte_domain_pass; a sample is re-decided by the solver); transitions = decisions taken along all paths (incl. forks over harness choices); distinct_nontrivial = completed paths (each a distinct decision sequence) that took at least one solver-decided branch on a symbolic input; every path is one equivalence class of inputs, decided for all its members at once",
+		"rule":                                 "evaluations = paths executed symbolically (states) + decisions discharged about symbolic conditions along them (branch feasibility, run-time panic obligations, assertions): by the SMT solver (decided_by_smt_solver) or, for conditions over a single byte-sized input, by exhaustive evaluation over its 256-value domain (decided_by_byte_domain_pass; a sample is re-decided by the solver); transitions = decisions taken along all paths (incl. forks over harness choices); distinct_nontrivial = completed (pass/fail) paths that depend on at least one harness input — each is a distinct sequence of decisions, i.e. a distinct equivalence class of inputs (a distinct program shape / operand region), decided for all its members at once; infeasible and aborted paths are not counted",
 		"states":                               sumPaths(paths),
 		"transitions":                          decisions + 1,
 		"decided_by_smt_solver":                queries,
